@@ -93,11 +93,13 @@ SrcBody(id) ==
       \* the helpers ./hq of the two directories
       [] id = 35 -> <<Macro("hm", <<>>, <<T(<<80, 104>>)>>)>>
       [] id = 36 -> <<Macro("hm", <<>>, <<T(<<83, 104>>)>>)>>
+      \* a page that from-imports the macro of n2 and calls it by its plain name (n2: source 9 or 19)
+      [] id = 37 -> <<From(LS(NT.n2), <<"mm">>, <<"mm">>), PrintS(Call("mm", <<Var("x")>>)), T(<<35>>), For1("i", Lit(VL(<<VI(1), VI(2)>>)), <<PrintS(Call("mm", <<Var("i")>>))>>)>>
 SrcPieces(id) == IF id = 3 THEN RawSyntaxError ELSE Source(SrcBody(id), LMin)
-AllSrc == 1..36
+AllSrc == 1..37
 IsSyntaxError(id) == id = 3
-RefersToN2 == {5, 6, 8, 13, 25}
-SrcFor(n) == IF n = "n1" THEN {1, 2, 3, 4, 5, 6, 8, 10, 12, 13, 14, 15, 16, 18, 23, 25, 33} ELSE {1, 3, 4, 7, 9, 10, 14, 15, 16, 17, 19, 24, 34}     \* no recursion: only n1 refers to n2
+RefersToN2 == {5, 6, 8, 13, 25, 37}
+SrcFor(n) == IF n = "n1" THEN {1, 2, 3, 4, 5, 6, 8, 10, 12, 13, 14, 15, 16, 18, 23, 25, 33, 37} ELSE {1, 3, 4, 7, 9, 10, 14, 15, 16, 17, 19, 24, 34}     \* no recursion: only n1 refers to n2
 LoaderSrc == 11                   \* content of n3 in the loader
 CtxIds == {1, 2, 3}              \* 3: context 1 plus 70 more variables (a large variable map)
 Filler == [n \in {"f" \o ToString(i) : i \in 1..70} |-> VI(1)]
@@ -160,7 +162,7 @@ GC ==
 
 \* prepared prefixes: a pair of sources that reach each other on engine 1 (include / extends / import / sandboxed include,
 \* failing and succeeding ones), and a source on engine 2 (which has no policy: 13 fails there)
-RichPairs == {<<23, 24>>, <<25, 17>>, <<25, 1>>, <<5, 17>>, <<6, 7>>, <<8, 9>>, <<8, 19>>, <<13, 14>>, <<13, 1>>, <<12, 7>>, <<18, 1>>, <<4, 1>>, <<10, 17>>}
+RichPairs == {<<37, 9>>, <<37, 19>>, <<23, 24>>, <<25, 17>>, <<25, 1>>, <<5, 17>>, <<6, 7>>, <<8, 9>>, <<8, 19>>, <<13, 14>>, <<13, 1>>, <<12, 7>>, <<18, 1>>, <<4, 1>>, <<10, 17>>}
 Preps == {[p |-> p, o |-> o] : p \in RichPairs, o \in {13, 1}}
 PrepReg(q) == [e \in Engines |-> IF e = 1 THEN ("n1" :> q.p[1]) @@ ("n2" :> q.p[2]) ELSE ("n1" :> q.o) @@ ("n2" :> 7)]
 PrepHist(q) == <<Op("reg", 1, [n |-> "n1", s |-> q.p[1], ok |-> TRUE]), Op("reg", 1, [n |-> "n2", s |-> q.p[2], ok |-> TRUE]),
